@@ -342,7 +342,8 @@ func gGenSpec(r *rand.Rand, pools []gPool, held []string) gSpec {
 	sp.Sharing = []string{"", "k1", "k1", "k1", "k2"}[r.Intn(5)]
 	sp.DeprShare = r.Intn(4) == 0
 	sp.Local = r.Intn(3) == 0
-	sp.Selector = []map[string]string{nil, nil, {"app": "a"}, {"app": "a"}, {"app": "b"}}[r.Intn(5)]
+	// several labels too: the backend key of a Local service is a rendering of the whole selector
+	sp.Selector = []map[string]string{nil, nil, {"app": "a"}, {"app": "a"}, {"app": "b"}, {"app": "a", "tier": "x", "zone": "z1", "rel": "s"}, {"app": "a", "tier": "x", "zone": "z1", "rel": "s"}}[r.Intn(7)]
 	univ := gAddrUniverse(pools)
 	if len(held) > 0 && r.Intn(2) == 0 { // aim explicit requests at addresses somebody holds
 		univ = held
@@ -1009,6 +1010,8 @@ func hRunHistory(t *testing.T, out *vOut, r *rand.Rand, id int) {
 		res := w.c.SetPools(log.NewNopLogger(), gBuildPools(ps))
 		if res == controllers.SyncStateReprocessAll {
 			w.reload = true
+		} else {
+			out.Stat("setpools_without_resync_request", 1)
 		}
 		w.pools = ps
 		for nm, sn := range prevQ {
@@ -1396,6 +1399,12 @@ func hRunHistory(t *testing.T, out *vOut, r *rand.Rand, id int) {
 			}
 			return w.writes - writes0, sameSets
 		}
+		if id%3 == 1 {
+			// one history in three runs without this oracle: its extra full re-sync repairs the state a missing
+			// re-sync request leaves behind and would hide it from every later oracle of the history
+			out.Stat("quiescent_points_without_resync_oracle", 1)
+			return
+		}
 		nw, same := resync()
 		if nw > 0 && !same && onlyGains {
 			out.Stat("permitted_preferdual_gains_at_resync", 1)
@@ -1526,6 +1535,29 @@ func hRunHistory(t *testing.T, out *vOut, r *rand.Rand, id int) {
 			checkQuiescent()
 		}
 		out.Stat("directed_mixed_protocol_scenarios", 1)
+		if r.Intn(2) == 0 {
+			// ... then a second co-tenant on a free port is assigned after the holder and leaves again, the remaining sole
+			// owner changes its sharing key in place, and a Service carrying the NEW key on another port must be able
+			// to share the pool's only address
+			doPut("ns1/e", gSpec{LB: true, Fam: "ipv4", ClusterOK: true, Pol: "single", Ports: []int{1}, Sharing: "k1"})
+			doSvc("ns1/e", false)
+			if drain() {
+				checkQuiescent()
+			}
+			doDel("ns1/e")
+			if drain() {
+				checkQuiescent()
+			}
+			holder.Sharing = "k2"
+			doPut("ns1/a", holder)
+			doSvc("ns1/a", false)
+			doPut("ns2/c", gSpec{LB: true, Fam: "ipv4", ClusterOK: true, Pol: "single", Ports: []int{1}, Sharing: "k2"})
+			doSvc("ns2/c", false)
+			if drain() {
+				checkQuiescent()
+			}
+			out.Stat("directed_key_change_after_cotenant_left_scenarios", 1)
+		}
 	} else if id%8 == 6 {
 		// directed: a PreferDualStack Service first gets one family only (the pool's single IPv6 address is
 		// taken), later gains the other one: it must keep the address it holds (AllocateFromPoolForAdditionalFamily)
@@ -1584,6 +1616,28 @@ func hRunHistory(t *testing.T, out *vOut, r *rand.Rand, id int) {
 			checkQuiescent()
 		}
 		out.Stat("directed_requested_subset_scenarios", 1)
+		// ... and the same pool layout with avoidBuggyIPs toggled on and off under the holder of a .0 address
+		// (SetPools drops the allocation; the re-sync it requests has to move the Service and fix its status)
+		if r.Intn(2) == 0 {
+			base := []gPool{{Name: "pa", CIDRs: []string{"10.0.0.4/31", "fc00::4/127"}, Auto: true}, {Name: "pb", CIDRs: []string{"10.0.1.0/31"}, Auto: true}}
+			doPut("ns2/c", gSpec{LB: true, Fam: "ipv4", ClusterOK: true, Pol: "single", Ports: []int{2}, WantPool: "pb"})
+			doPools(base)
+			if drain() {
+				checkQuiescent()
+			}
+			base[1].Avoid = true
+			doPools(base)
+			if drain() {
+				checkQuiescent()
+			}
+			base[1].Avoid = false
+			doPools(base)
+			doPut("ns2/d", gSpec{LB: true, Fam: "ipv4", ClusterOK: true, Pol: "single", Ports: []int{3}, WantPool: "pb"})
+			if drain() {
+				checkQuiescent()
+			}
+			out.Stat("directed_avoid_toggle_scenarios", 1)
+		}
 	} else {
 		doPools(gGenPools(r))
 	}
@@ -1626,7 +1680,28 @@ func hRunHistory(t *testing.T, out *vOut, r *rand.Rand, id int) {
 			doDel(name)
 		case x < 42:
 			np := gGenPools(r)
-			if r.Intn(2) == 0 && len(w.pools) > 0 { // rename / regroup
+			if r.Intn(3) == 0 && len(w.pools) > 0 { // same names and ranges, one attribute of one pool edited
+				np = nil
+				for _, p := range w.pools {
+					q := p
+					q.CIDRs = append([]string{}, p.CIDRs...)
+					np = append(np, q)
+				}
+				i := r.Intn(len(np))
+				switch r.Intn(3) {
+				case 0:
+					np[i].Avoid = !np[i].Avoid
+				case 1:
+					np[i].Auto = !np[i].Auto
+				default:
+					if np[i].Pin == nil {
+						np[i].Pin = &gPin{Prio: r.Intn(3), Nss: []string{gNss[r.Intn(2)]}}
+					} else {
+						np[i].Pin = nil
+					}
+				}
+				out.Stat("ev_pools_attribute_only", 1)
+			} else if r.Intn(2) == 0 && len(w.pools) > 0 { // rename / regroup
 				np = append([]gPool{}, w.pools...)
 				perm := r.Perm(len(gPoolNames))
 				for i := range np {
